@@ -84,3 +84,40 @@ def _(self: S3X, offset: int):
     ensures(offset == 0 or any(s.full_image_offset == self._init_offset for s in self._segments), label="at-a-fixed-segment-offset")
     ensures(all(not (offset <= s.full_image_offset and s.full_image_offset < self._init_offset) for s in self._segments), label="the-closest-one")
     modifies(self._init_offset, self._segments[0].excluded, self._segments[1].excluded, self._segments[2].excluded)
+
+
+# ---- the base segment parser: a fixed-size segment keeps exactly its SIZE bytes, a variable-size one (SIZE = -1: SB2.1 / SB3.1 containers)
+#      keeps every byte it was given; a block of the erased / zero pattern means "not present" ----------------------------------------------
+from spsdk.exceptions import SPSDKParsingError  # noqa: E402
+from spsdk.image.bootable_image.segments import (Segment, SegmentBeeHeader0, SegmentKeyBlob, SegmentKeyStore, SegmentSB21, SegmentSB31,  # noqa: E402
+                                                 SPSDKSegmentNotPresent)
+from spsdk.image.mem_type import MemoryType  # noqa: E402
+
+inline("spsdk.image.bootable_image.segments:Segment._is_padding")
+concrete_ok("spsdk.utils.misc:BinaryPattern")
+
+
+def _SEGOBJ(cls):
+    return Obj(cls, raw_block=Optional[Bytes(lo=0, hi=64)], not_parsed=bool)
+
+
+def _mk_seg(rnd):
+    cls = rnd.choice([SegmentKeyBlob, SegmentKeyStore, SegmentBeeHeader0, SegmentSB21, SegmentSB31])
+    size = cls.SIZE if cls.SIZE > 0 else rnd.choice([1, 97, 3808])
+    kind = rnd.randrange(5)
+    blob = (bytes(size + 40) if kind == 0 else b"\xff" * (size + 40) if kind == 1 else bytes(rnd.getrandbits(8) for _ in range(size + rnd.choice([0, 1, 40]))) if kind < 4
+            else bytes(rnd.getrandbits(8) for _ in range(max(size - 1, 0))))
+    return {"self": cls(0, "mimxrt595s" if cls is SegmentSB21 else "lpc55s3x", MemoryType.FLEXSPI_NOR), "binary": blob}
+
+
+@contract("spsdk.image.bootable_image.segments:Segment.parse_binary")
+def _(self: Union[_SEGOBJ(SegmentKeyBlob), _SEGOBJ(SegmentKeyStore), _SEGOBJ(SegmentBeeHeader0), _SEGOBJ(SegmentSB21), _SEGOBJ(SegmentSB31)], binary: Bytes(lo=0, hi=1 << 24)):
+    let(size=type(self).SIZE)
+    let(fixed=size > 0)
+    raises(SPSDKParsingError, fixed and len(binary) < size, label="too-short-for-a-fixed-size-segment")
+    raises(SPSDKSegmentNotPresent, fixed and len(binary) >= size and (forall(0, size, lambda k: binary[k] == 0) or forall(0, size, lambda k: binary[k] == 255)),
+           label="only-padding-means-not-present")
+    ensures(self.raw_block == (binary[:size] if fixed else binary), label="fixed-size-keeps-size-bytes-variable-size-keeps-every-byte")
+    ensures(not self.not_parsed, label="marked-parsed")
+    modifies(self.raw_block, self.not_parsed)
+    sample_with(lambda rnd: _mk_seg(rnd))
